@@ -91,9 +91,8 @@ pub fn c02_after(vt: &Vt, requested: (usize, usize), out: &Outcome) -> Option<St
     if h.tabs.iter().any(|t| *t >= cols) || h.tabs.windows(2).any(|w| w[0] >= w[1]) {
         return Some(format!("tab stops {:?} not sorted/unique/< cols {}", h.tabs, cols));
     }
-    if h.saved_ctx.cursor_col >= cols || h.saved_ctx.cursor_row >= rows {
-        return Some(format!("active saved cursor ({},{}) outside the {}x{} screen", h.saved_ctx.cursor_col, h.saved_ctx.cursor_row, cols, rows));
-    }
+    // (whether a saved position is clamped at the resize or at the restore is not promised: the
+    // restored cursor is what C02 / C17 constrain, and every restore is followed by the checks above)
     // the inactive buffer is internally consistent with its own recorded geometry
     let ol = vt.verif_other_lines();
     if ol.len() != h.other_buffer.len || ol.len() < h.other_buffer.rows || ol.iter().any(|l| l.len() != h.other_buffer.cols) {
